@@ -788,7 +788,7 @@ func init() {
 			"after clearing the flag the state equals the initial one and a setter takes effect. non-trivial = the same call(s) DO change a writable twin built from the same seed (measured, so the guard is known to matter); distinct = (receiver kind, call list, instance).",
 		Assumptions: []string{"closures installed before the flag is set are inert (a user closure invoked by Valid/IsEqual/... may of course do anything)", "the Auxiliary map handed out by Auxiliary() is user-managed and not part of the comparison beyond identity and shallow content"},
 		Floors: func(string) map[string]int64 {
-			return map[string]int64{"calls.Stack": 3000, "calls.Condition": 1000, "guard-matters.Stack": 500, "guard-matters.Condition": 100, "foreign.argument": 3000, "foreign.nested-element": 1000}
+			return map[string]int64{"calls.Stack": 3000, "others-at-work-while-read-only": 1000, "cases.with-bystander-goroutines": 1000, "calls.Condition": 1000, "guard-matters.Stack": 500, "guard-matters.Condition": 100, "foreign.argument": 3000, "foreign.nested-element": 1000}
 		},
 	})
 }
